@@ -5,6 +5,7 @@ from fractions import Fraction
 import numpy as np
 
 from .. import common as C
+from . import c07 as P7
 
 ID = 'C06'
 MODEL = 'c06'
@@ -28,7 +29,9 @@ RULE = ('corpus first, then random and (thorough) exhaustive small-scope cases o
         '{mul, merge, reduce, insert, extent queries, array_extent, boundary, Wavefront.field/intensity}; '
         'histories: the same Field objects used by 2-4 merge/reduce/intensity/insert/mul calls (a field spanning the others '
         'listed first, 0-d fields at the origin, ...), each call compared on the ORIGINAL data + operands unchanged by value; '
-        'every Field built with the offset as list/tuple/ndarray/numpy ints/None and data as complex/real/int/Python values; '
+        'every Field built with the offset as list/tuple/ndarray/numpy ints/None and data as complex/real/int/Python values or '
+        'as an ndarray subclass (masked with/without flags, np.matrix, metadata subclass, memmap; caller memory unchanged); '
+        'cases with all data scaled by 2^-30..2^-43 and the results un-scaled; fields with > 2**20 samples against numpy canvases; '
         'non-trivial = not both operands centred at offset (0,0) with equal shapes; distinct by case hash')
 
 
@@ -50,7 +53,18 @@ def mk_field(fd):
             data = data.real.tolist()        # a Python number / nested list
     elif dform == 'py':
         data = data.tolist()
+    if fd.get('sc'):                          # the same data 2^-sc times smaller (exact): every operation is linear
+        data = np.asarray(data, dtype=float if np.isrealobj(np.asarray(data)) else complex) * 2.0 ** (-fd['sc'])
+    if fd.get('sub') and isinstance(data, np.ndarray) and data.ndim == 2:
+        # the same samples as an instance of an ndarray subclass (masked array with or without flags, np.matrix,
+        # metadata-carrying subclass, memmap): the Field must behave as for the plain ndarray
+        data = P7.subclass_form(data, fd['sub'])
+        _KEEP.append(('field data', data, P7.plain(data),
+                      None if not isinstance(data, np.ma.MaskedArray) else np.array(np.ma.getmaskarray(data))))
     return lentil.field.Field(data=data, offset=mk_offset(fd))
+
+
+_KEEP = []
 
 
 def mk_offset(fd):
@@ -121,7 +135,7 @@ def canvas_box(fds, margin=1):
 
 def impl_field_canon(f):
     """lentil Field -> canonical dict"""
-    d = np.asarray(f.data)
+    d = np.asarray(np.ma.getdata(f.data))
     if d.size == 0:
         return {'kind': 'empty'}
     off = [int(f.offset[0]), int(f.offset[1])]
@@ -183,7 +197,12 @@ def rnd_field(rng, maxn=4, offr=5, allow0=True, allow11=True):
     data = [[rnd_gauss(rng) for _ in range(m)] for _ in range(n)]
     if dform in ('real', 'int') and rng.random() < 0.7:
         data = [[[v[0], 0] for v in row] for row in data]
-    return {'tag': 2, 'data': data, 'off': off, 'form': form, 'dform': dform}
+    fd = {'tag': 2, 'data': data, 'off': off, 'form': form, 'dform': dform}
+    if rng.random() < 0.2:
+        fd['sub'] = rng.choice(P7.SUBFORMS)
+        if fd['dform'] == 'py':
+            fd['dform'] = 'complex'
+    return fd
 
 
 def rnd_hist(rng):
@@ -250,6 +269,75 @@ def expand(c, call):
 
 
 def generate(rng, tier):
+    for k in range(3 if tier == 'quick' else 6):
+        yield {'op': 'big', 'kind': ['mul', 'views', 'insert'][k % 3], 'seed': rng.randint(0, 10 ** 6),
+               'shape': [1030, 1021] if k < 3 else [1153, 911]}
+    for c in _generate(rng, tier):
+        if c['op'] in ('mul', 'merge', 'reduce', 'insert', 'wfield', 'wintensity'):
+            t = rng.random()
+            if t < 0.1 and all(f['tag'] == 2 or c['op'] == 'mul' for f in fields_of(c)):
+                scale_case(c, rng.choice([30, 33, 37, 40, 43]))
+            if c['op'] == 'insert' and rng.random() < 0.15:
+                c['osub'] = rng.choice(['ma', 'meta', 'memmap', 'matrix'])
+        yield c
+
+
+def run_big(c):
+    """fields with more than 2**20 samples (sizes not divisible by small block counts): product, merged views and
+    insert against whole-array numpy arithmetic on a common canvas"""
+    lentil = C.import_lentil()
+    Fm = lentil.field
+    g = np.random.default_rng(c['seed'])
+    n, m = c['shape']
+
+    def data(a, b):
+        return (g.integers(-4, 5, (a, b)) + 1j * g.integers(-4, 5, (a, b))).astype(complex)
+    A, offA = data(n, m), (3, -2)
+    B, offB = data(n - 401, m - 333), (-100, 50)
+
+    def canvas(d, off, R, Cc):
+        out = np.zeros((R, Cc), dtype=complex)
+        r0 = R // 2 - d.shape[0] // 2 + off[0]
+        c0 = Cc // 2 - d.shape[1] // 2 + off[1]
+        rs, cs = max(r0, 0), max(c0, 0)
+        re, ce = min(r0 + d.shape[0], R), min(c0 + d.shape[1], Cc)
+        if re > rs and ce > cs:
+            out[rs:re, cs:ce] = d[rs - r0:re - r0, cs - c0:ce - c0]
+        return out
+    R, Cc = n + 230, m + 170
+    try:
+        fa, fb = Fm.Field(A.copy(), offset=offA), Fm.Field(B.copy(), offset=offB)
+        if c['kind'] == 'mul':
+            p = fa * fb
+            got = canvas(np.asarray(p.data), tuple(int(x) for x in p.offset), R, Cc)
+            want = canvas(A, offA, R, Cc) * canvas(B, offB, R, Cc)
+            what = 'product of two large fields'
+        elif c['kind'] == 'views':
+            w = lentil.Wavefront.empty(wavelength=1e-6, shape=(R, Cc))
+            w.data = [fa, fb]
+            tot = canvas(A, offA, R, Cc) + canvas(B, offB, R, Cc)
+            if not np.array_equal(w.field, tot):
+                return {'mismatch': 'Wavefront.field of two large overlapping fields is not the sum of their embeddings'}
+            got, want = w.intensity, np.abs(tot) ** 2
+            if not np.allclose(got, want, rtol=1e-12, atol=0):
+                return {'mismatch': 'Wavefront.intensity of two large overlapping fields is not |sum|^2'}
+            return {'mismatch': None}
+        else:
+            out = g.integers(-3, 4, (R - 7, Cc + 5)).astype(complex)
+            want = out + 0.5 * canvas(A, offA, R - 7, Cc + 5)
+            got = Fm.insert(fa, out.copy(), weight=0.5)
+            what = 'insert of a large field with weight 1/2'
+        if not np.array_equal(got, want):
+            i = np.argwhere(got != want)[0]
+            return {'mismatch': f'{what}: sample {tuple(int(x) for x in i)} is {got[tuple(i)]}, expected {want[tuple(i)]}'}
+        if not (np.array_equal(fa.data, A) and np.array_equal(fb.data, B)):
+            return {'mismatch': f'{what}: an operand was modified'}
+    except Exception as e:
+        return {'mismatch': f'large fields ({c["kind"]}): raised {type(e).__name__}: {e}'}
+    return {'mismatch': None}
+
+
+def _generate(rng, tier):
     # 0-d x 0-d at equal offsets, the two offsets given in every pair of argument forms
     for fa in ('list', 'tuple', 'ndarray', 'npint', 'none'):
         for fb in ('list', 'tuple', 'ndarray', 'npint_list', 'none'):
@@ -319,6 +407,10 @@ def generate(rng, tier):
 
 
 def classify(c):
+    if c['op'] == 'big':
+        return 'big/' + c['kind']
+    if c.get('sc') or c.get('osub') or any(f.get('sub') for f in fields_of(c)):
+        return c['op'] + ('/scaled' if c.get('sc') else '') + ('/subclass' if c.get('osub') or any(f.get('sub') for f in fields_of(c)) else '')
     if c['op'] == 'hist':
         return 'hist/' + '-'.join(x['op'] for x in c['calls'])
     return c['op']
@@ -326,7 +418,7 @@ def classify(c):
 
 def nontrivial(c):
     op = c['op']
-    if op == 'hist':
+    if op in ('hist', 'big'):
         return True
     if op == 'mul':
         return not (c['a']['off'] == [0, 0] and c['b']['off'] == [0, 0] and shape_of(c['a']) == shape_of(c['b']))
@@ -340,6 +432,8 @@ def nontrivial(c):
 # ------------------------------------------------------------------ model side
 def encode(c):
     op = c['op']
+    if op == 'big':
+        return None              # beyond the exact model's reach: decided by the numpy oracle
     if op == 'hist':
         out = [10]
         for call in c['calls']:
@@ -414,13 +508,73 @@ def run_hist(c):
     return {'calls': res, 'operands': [impl_field_canon(o) for o in objs]}
 
 
+def fields_of(c):
+    if c['op'] == 'mul':
+        return [c['a'], c['b']]
+    if c['op'] == 'insert':
+        return [c['f']]
+    return c.get('fs', [])
+
+
+def scale_case(c, e):
+    """every field of the case 2^-e times smaller (exact); results are un-scaled before anything is compared"""
+    c['sc'] = e
+    if c['op'] == 'insert':      # a tiny contribution added to O(1) prior content is lost in float: start from zeros
+        c['out'] = [[[0, 0] for _ in row] for row in c['out']]
+    for f in fields_of(c):
+        f['sc'] = e
+        if f.get('dform') in ('int', 'py'):
+            f['dform'] = 'real'
+    return c
+
+
+def unscale(c, res):
+    e = c.get('sc')
+    if not e or not isinstance(res, dict) or 'err' in res:
+        return res
+    op = c['op']
+    p = {'mul': 2, 'merge': 1, 'reduce': 1, 'wfield': 1, 'wintensity': 2, 'insert': 2 if c.get('intensity') else 1}.get(op)
+    if p is None:
+        return res
+    g = 2.0 ** (e * p)
+
+    def fld(d):
+        if d.get('kind') != 'field':
+            return d
+        d = dict(d)
+        d['data'] = [d['data'][0] * g, d['data'][1] * g] if d['tag'] == 0 else [[[v[0] * g, v[1] * g] for v in row] for row in d['data']]
+        return d
+    if op in ('mul', 'merge'):
+        return fld(res)
+    if op == 'reduce':
+        return {'fields': [fld(x) for x in res['fields']]}
+    if op in ('wfield', 'wintensity'):
+        return {'arr': [[[v[0] * g, v[1] * g] for v in row] for row in res['arr']]}
+    out = c['out']                      # insert: only the added part scales
+    return {'arr': [[[o[0] + (v[0] - o[0]) * g, (0 if c['intensity'] else o[1]) + (v[1] - (0 if c['intensity'] else o[1])) * g]
+                     for v, o in zip(rv, ro)] for rv, ro in zip(res['arr'], out)]}
+
+
 def run_impl(c, mk=None):
+    if c['op'] == 'hist':
+        return run_hist(c)
+    if c['op'] == 'big':
+        return run_big(c)
+    if mk is None:
+        del _KEEP[:]
+    res = _run_ops(c, mk)
+    if mk is None and isinstance(res, dict):
+        m = P7.memory_changed(_KEEP)
+        if m:
+            res['memory'] = m
+    return unscale(c, res)
+
+
+def _run_ops(c, mk=None):
     lentil = C.import_lentil()
     F = lentil.field
     E = lentil.extent
     op = c['op']
-    if op == 'hist':
-        return run_hist(c)
     mk_field = mk or globals()['mk_field']
     try:
         if op == 'mul':
@@ -434,9 +588,11 @@ def run_impl(c, mk=None):
             out = np.array([[complex(*v) for v in row] for row in c['out']], dtype=complex)
             if inten:
                 out = out.real.copy()
+            if c.get('osub'):
+                out = P7.subclass_form(out, c['osub'])
             w = float(Fraction(c['w']))
             res = F.insert(mk_field(c['f']), out, intensity=inten, weight=w)
-            res = np.asarray(res, dtype=complex)
+            res = np.asarray(np.ma.getdata(res), dtype=complex)
             return {'arr': [[[v.real, v.imag] for v in row] for row in res.tolist()]}
         if op == 'extq':
             a, b = tuple(c['a']), tuple(c['b'])
@@ -537,6 +693,10 @@ def oracle(c, impl):
     op = c['op']
     if op == 'hist':
         return oracle_hist(c, impl)
+    if op == 'big':
+        return impl.get('mismatch')
+    if isinstance(impl, dict) and impl.get('memory'):
+        return impl['memory'] + ' by ' + op
     if op == 'mul':
         a, b = c['a'], c['b']
         if 'err' in impl:
